@@ -32,6 +32,50 @@ theorem mul128_core (hh hl lh ll : Nat) (h1 : hh ≤ 18446744065119617025) (h2 :
     hh * 18446744073709551616 + (hl + lh) * 4294967296 + ll := by
   omega
 
+theorem mul72_core (hl ll : Nat) (h2 : hl ≤ 18446744065119617025) (h4 : ll ≤ 18446744065119617025) :
+    (hl + ll / 4294967296) % 18446744073709551616 / 4294967296 * 18446744073709551616 +
+      ((hl + ll / 4294967296) % 18446744073709551616 % 4294967296 * 4294967296 + ll % 4294967296) =
+    hl * 4294967296 + ll := by
+  omega
+
+/-- the four 32x32 partial products of two 64-bit values, their bounds, both orders of every product, and the
+  schoolbook identity: the facts the 128-bit / 72-bit product proofs hand to `omega` (products become atoms) -/
+theorem halves_facts (x y : Nat) (hx : x < 18446744073709551616) (hy : y < 18446744073709551616) :
+    x / 4294967296 * (y / 4294967296) ≤ 18446744065119617025 ∧
+    x / 4294967296 * (y % 4294967296) ≤ 18446744065119617025 ∧
+    x % 4294967296 * (y / 4294967296) ≤ 18446744065119617025 ∧
+    x % 4294967296 * (y % 4294967296) ≤ 18446744065119617025 ∧
+    x * y = x / 4294967296 * (y / 4294967296) * 18446744073709551616 +
+      (x / 4294967296 * (y % 4294967296) + x % 4294967296 * (y / 4294967296)) * 4294967296 +
+      x % 4294967296 * (y % 4294967296) ∧
+    x * (y % 4294967296) = x / 4294967296 * (y % 4294967296) * 4294967296 + x % 4294967296 * (y % 4294967296) := by
+  have b1 : x / 4294967296 < 4294967296 := by omega
+  have b2 : x % 4294967296 < 4294967296 := by omega
+  have b3 : y / 4294967296 < 4294967296 := by omega
+  have b4 : y % 4294967296 < 4294967296 := by omega
+  have e1 : x = x / 4294967296 * 4294967296 + x % 4294967296 := by omega
+  have e2 : y = y / 4294967296 * 4294967296 + y % 4294967296 := by omega
+  refine ⟨mul32_le _ _ b1 b3, mul32_le _ _ b1 b4, mul32_le _ _ b2 b3, mul32_le _ _ b2 b4,
+    split_mul x y _ _ _ _ e1 e2, ?_⟩
+  conv => lhs; rw [e1]
+  rw [Nat.add_mul, Nat.mul_right_comm]
+
+/-- after `lane_nat`: bring every partial product into the order used by `halves_facts`, name the products,
+  forget where they came from and let `omega` recombine them.  `x y` are the operand words. -/
+macro "products_omega" x:term "," y:term : tactic => `(tactic| (
+  obtain ⟨h1, h2, h3, h4, key, key72⟩ := halves_facts (($x).toNat) (($y).toNat) (BitVec.isLt _) (BitVec.isLt _)
+  try rw [Nat.mul_comm (($y).toNat / 4294967296) (($x).toNat / 4294967296)] at *
+  try rw [Nat.mul_comm (($y).toNat % 4294967296) (($x).toNat / 4294967296)] at *
+  try rw [Nat.mul_comm (($y).toNat / 4294967296) (($x).toNat % 4294967296)] at *
+  try rw [Nat.mul_comm (($y).toNat % 4294967296) (($x).toNat % 4294967296)] at *
+  generalize ($x).toNat / 4294967296 * (($y).toNat / 4294967296) = hh at *
+  generalize ($x).toNat / 4294967296 * (($y).toNat % 4294967296) = hl at *
+  generalize ($x).toNat % 4294967296 * (($y).toNat / 4294967296) = lh at *
+  generalize ($x).toNat % 4294967296 * (($y).toNat % 4294967296) = ll at *
+  generalize ($x).toNat * ($y).toNat = xy at *
+  generalize ($x).toNat * (($y).toNat % 4294967296) = xyl at *
+  omega))
+
 /-! #### mult_avx_128 -/
 
 def mul128h (x y : BitVec 64) : BitVec 64 := ((mult_avx_128 (V4.splat x) (V4.splat y)).1).get 0
@@ -41,40 +85,14 @@ theorem mult128_get (a b : V4) (i : Fin 4) :
     (mult_avx_128 a b).1.get i = mul128h (a.get i) (b.get i) ∧
     (mult_avx_128 a b).2.get i = mul128l (a.get i) (b.get i) := by
   unfold mul128h mul128l
-  simp only [mult_avx_128, Avx2.movehdup_ps, Avx2.moveldup_ps, Avx2.mul_epu32, Avx2.srli_epi64, Avx2.add_epi64,
-    Avx2.and_si256, V4.get_map2, V4.get_map, V4.get_splat, V4.get_set_same, V4.get_blend_aa, g_P_n, and_self]
-
-theorem mul128_lanes (x y : BitVec 64) :
-    mul128h x y = mul32 (hdup x) (hdup y) + (mul32 (hdup x) y + (mul32 x y >>> 32)) >>> 32 +
-        (mul32 x (hdup y) + ((mul32 (hdup x) y + (mul32 x y >>> 32)) &&& 4294967295#64)) >>> 32 ∧
-    mul128l x y = blend32 2 (mul32 x y)
-        (ldup (mul32 x (hdup y) + ((mul32 (hdup x) y + (mul32 x y >>> 32)) &&& 4294967295#64))) := by
-  unfold mul128h mul128l
-  simp only [mult_avx_128, Avx2.movehdup_ps, Avx2.moveldup_ps, Avx2.mul_epu32, Avx2.srli_epi64, Avx2.add_epi64,
-    Avx2.and_si256, V4.get_map2, V4.get_map, V4.get_splat, V4.get_set_same, V4.get_blend_aa, g_P_n, and_self]
+  simp only [mult_avx_128, lane_get]
 
 /-- the 128-bit product is exact, for all operands -/
 theorem mul128_spec (x y : BitVec 64) :
     (mul128h x y).toNat * 18446744073709551616 + (mul128l x y).toNat = x.toNat * y.toNat := by
-  obtain ⟨eh, el⟩ := mul128_lanes x y
-  rw [eh, el]
-  simp only [BitVec.toNat_add, blend_ldup_toNat, ushr32_toNat, and_lo32_toNat, mul32_toNat, hdup_mod,
-    Nat.reducePow]
-  have hx := x.isLt
-  have hy := y.isLt
-  have b1 : x.toNat / 4294967296 < 4294967296 := by omega
-  have b2 : x.toNat % 4294967296 < 4294967296 := by omega
-  have b3 : y.toNat / 4294967296 < 4294967296 := by omega
-  have b4 : y.toNat % 4294967296 < 4294967296 := by omega
-  have e1 : x.toNat = x.toNat / 4294967296 * 4294967296 + x.toNat % 4294967296 := by omega
-  have e2 : y.toNat = y.toNat / 4294967296 * 4294967296 + y.toNat % 4294967296 := by omega
-  have key := split_mul x.toNat y.toNat (x.toNat / 4294967296) (x.toNat % 4294967296) (y.toNat / 4294967296)
-    (y.toNat % 4294967296) e1 e2
-  have h1 := mul32_le _ _ b1 b3
-  have h2 := mul32_le _ _ b1 b4
-  have h3 := mul32_le _ _ b2 b3
-  have h4 := mul32_le _ _ b2 b4
-  exact (mul128_core _ _ _ _ h1 h2 h3 h4).trans key.symm
+  unfold mul128h mul128l
+  simp only [mult_avx_128, lane_get, lane_nat]
+  products_omega x, y
 
 
 /-- 2^64 = 2^32 - 1 and 2^96 = -1 (mod p): the reduction identity behind reduce_*_128_64 -/
@@ -91,43 +109,43 @@ theorem reduce128_core (u hh hl cl r : Nat) (h1 : (u + hh) % P = cl % P)
   unfold P at *
   omega
 
-theorem unsh_shift (v : BitVec 64) : unsh (v ^^^ 9223372036854775808#64).toNat = v.toNat := by
-  rw [xor_msb_toNat]; unfold unsh; have := v.isLt; omega
-theorem shift_toNat_unsh (v : BitVec 64) : (v ^^^ 9223372036854775808#64).toNat = unsh v.toNat := by
-  rw [xor_msb_toNat]; rfl
-
 /-! #### reduce_avx_128_64 -/
 
 theorem reduce128_get (h l : V4) (i : Fin 4) :
     (reduce_avx_128_64 h l).get i = L2.bin reduce_avx_128_64 (h.get i) (l.get i) := by
   unfold L2.bin
-  simp only [reduce_avx_128_64, shift_get, sub_s_b_small_get, add_s_b_small_get, Avx2.srli_epi64, Avx2.mul_epu32,
-    V4.get_map2, V4.get_map, V4.get_splat, V4.get_set_same, g_P_n]
+  simp only [reduce_avx_128_64, shift_get, sub_s_b_small_get, add_s_b_small_get, lane_get]
 
-theorem reduce128_lane (h l : BitVec 64) : L2.bin reduce_avx_128_64 h l =
-    (L2.bin add_avx_s_b_small (L2.bin sub_avx_s_b_small (l ^^^ 9223372036854775808#64) (h >>> 32))
-        (mul32 h 4294967295#64)) ^^^ 9223372036854775808#64 := by
-  unfold L2.bin
-  simp only [reduce_avx_128_64, shift_get, sub_s_b_small_get, add_s_b_small_get, Avx2.srli_epi64, Avx2.mul_epu32,
-    V4.get_map2, V4.get_map, V4.get_splat, V4.get_set_same, g_P_n]
+theorem mul32_Pn_toNat (h : BitVec 64) : (mul32 h 4294967295#64).toNat = h.toNat % 4294967296 * 4294967295 := by
+  rw [mul32_toNat]; rfl
+theorem Pn_mul32_toNat (h : BitVec 64) : (mul32 4294967295#64 h).toNat = h.toNat % 4294967296 * 4294967295 := by
+  rw [mul32_toNat, Nat.mul_comm]; rfl
 
 /-- reduce_avx_128_64 : for all 128-bit inputs (c_h, c_l) the result represents c_h·2^64 + c_l mod p -/
 theorem reduce128_spec (h l : BitVec 64) :
     (L2.bin reduce_avx_128_64 h l).toNat % P = (h.toNat * 18446744073709551616 + l.toNat) % P := by
-  rw [reduce128_lane, shift_toNat_unsh]
+  -- the call structure: shift, subtract the top 32 bits, add (low 32 bits of c_h)·(2^32-1), shift back
+  have e : ∃ m, (m.toNat = h.toNat % 4294967296 * 4294967295) ∧ L2.bin reduce_avx_128_64 h l =
+      L2.un shift_avx (L2.bin add_avx_s_b_small (L2.bin sub_avx_s_b_small (L2.un shift_avx l) (h >>> 32)) m) := by
+    first
+      | exact ⟨mul32 h 4294967295#64, mul32_Pn_toNat h, by
+          unfold L2.bin
+          simp only [reduce_avx_128_64, shift_get, sub_s_b_small_get, add_s_b_small_get, lane_get]⟩
+      | exact ⟨mul32 4294967295#64 h, Pn_mul32_toNat h, by
+          unfold L2.bin
+          simp only [reduce_avx_128_64, shift_get, sub_s_b_small_get, add_s_b_small_get, lane_get]⟩
+  obtain ⟨m, hm, e⟩ := e
+  rw [e, shift_spec]
   have hh := h.isLt
   have b1 : (h >>> 32).toNat ≤ 18446744069414584320 := by rw [ushr32_toNat]; omega
-  have b2 : (mul32 h 4294967295#64).toNat ≤ 18446744069414584320 := by
-    rw [mul32_toNat]
-    have := mul32_le (h.toNat % 4294967296) ((4294967295#64 : BitVec 64).toNat % 4294967296) (by omega) (by decide)
+  have b2 : m.toNat ≤ 18446744069414584320 := by
+    rw [hm]
+    have := mul32_le (h.toNat % 4294967296) 4294967295 (by omega) (by decide)
     omega
-  have s1 := sub_s_b_small_spec (l ^^^ 9223372036854775808#64) (h >>> 32) b1
-  have s2 := add_s_b_small_spec (L2.bin sub_avx_s_b_small (l ^^^ 9223372036854775808#64) (h >>> 32))
-    (mul32 h 4294967295#64) b2
-  rw [unsh_shift, ushr32_toNat] at s1
-  rw [mul32_toNat] at s2
-  have e : (4294967295#64 : BitVec 64).toNat % 4294967296 = 4294967295 := by decide
-  rw [e] at s2
+  have s1 := sub_s_b_small_spec (L2.un shift_avx l) (h >>> 32) b1
+  have s2 := add_s_b_small_spec (L2.bin sub_avx_s_b_small (L2.un shift_avx l) (h >>> 32)) m b2
+  rw [shift_spec, unsh_unsh _ l.isLt, ushr32_toNat] at s1
+  rw [hm] at s2
   have key := reduce128_core _ (h.toNat / 4294967296) (h.toNat % 4294967296) l.toNat _ s1 s2
   have e2 : h.toNat / 4294967296 * 4294967296 + h.toNat % 4294967296 = h.toNat := by omega
   rw [e2] at key
@@ -153,73 +171,47 @@ theorem mult72_get (a b : V4) (i : Fin 4) :
     (mult_avx_72 a b).1.get i = mul72h (a.get i) (b.get i) ∧
     (mult_avx_72 a b).2.get i = mul72l (a.get i) (b.get i) := by
   unfold mul72h mul72l
-  simp only [mult_avx_72, Avx2.mul_epu32, Avx2.srli_epi64, Avx2.slli_epi64, Avx2.add_epi64,
-    V4.get_map2, V4.get_map, V4.get_splat, V4.get_blend_aa, and_self]
-
-theorem mul72_lanes (x y : BitVec 64) :
-    mul72h x y = (mul32 (x >>> 32) y + (mul32 x y >>> 32)) >>> 32 ∧
-    mul72l x y = blend32 2 (mul32 x y) ((mul32 (x >>> 32) y + (mul32 x y >>> 32)) <<< 32) := by
-  unfold mul72h mul72l
-  simp only [mult_avx_72, Avx2.mul_epu32, Avx2.srli_epi64, Avx2.slli_epi64, Avx2.add_epi64,
-    V4.get_map2, V4.get_map, V4.get_splat, V4.get_blend_aa, and_self]
-
-theorem mul72_core (hl ll : Nat) (h2 : hl ≤ 18446744065119617025) (h4 : ll ≤ 18446744065119617025) :
-    (hl + ll / 4294967296) % 18446744073709551616 / 4294967296 * 18446744073709551616 +
-      ((hl + ll / 4294967296) % 18446744073709551616 % 4294967296 * 4294967296 + ll % 4294967296) =
-    hl * 4294967296 + ll := by
-  omega
+  simp only [mult_avx_72, lane_get]
 
 /-- mult_avx_72 : exact product of `a` with the low 32 bits of `b`; the high word is below 2^32 -/
 theorem mul72_spec (x y : BitVec 64) :
     (mul72h x y).toNat * 18446744073709551616 + (mul72l x y).toNat = x.toNat * (y.toNat % 4294967296) ∧
     (mul72h x y).toNat < 4294967296 := by
-  obtain ⟨eh, el⟩ := mul72_lanes x y
-  rw [eh, el]
-  simp only [BitVec.toNat_add, blend_shl_toNat, ushr32_toNat, mul32_toNat, Nat.reducePow]
-  have hx := x.isLt
-  have b1 : x.toNat / 4294967296 < 4294967296 := by omega
-  have b1' : x.toNat / 4294967296 % 4294967296 = x.toNat / 4294967296 := by omega
-  have b2 : x.toNat % 4294967296 < 4294967296 := by omega
-  have b4 : y.toNat % 4294967296 < 4294967296 := by omega
-  rw [b1']
-  have h2 := mul32_le _ _ b1 b4
-  have h4 := mul32_le _ _ b2 b4
-  have core := mul72_core _ _ h2 h4
-  have e1 : x.toNat = x.toNat / 4294967296 * 4294967296 + x.toNat % 4294967296 := by omega
-  have key : x.toNat * (y.toNat % 4294967296) =
-      x.toNat / 4294967296 * (y.toNat % 4294967296) * 4294967296 + x.toNat % 4294967296 * (y.toNat % 4294967296) := by
-    conv => lhs; rw [e1]
-    rw [Nat.add_mul, Nat.mul_right_comm]
-  constructor
-  · exact core.trans key.symm
-  · omega
+  unfold mul72h mul72l
+  simp only [mult_avx_72, lane_get, lane_nat]
+  products_omega x, y
 
 theorem reduce96_get (h l : V4) (i : Fin 4) :
-    (reduce_avx_96_64 h l).get i = L2.bin add_avx_b_small (l.get i) (mul32 (h.get i) 4294967295#64) := by
-  simp only [reduce_avx_96_64, add_b_small_get, Avx2.mul_epu32, V4.get_map2, V4.get_set_same, g_P_n]
+    (reduce_avx_96_64 h l).get i = L2.bin reduce_avx_96_64 (h.get i) (l.get i) := by
+  unfold L2.bin
+  simp only [reduce_avx_96_64, add_b_small_get, lane_get]
+
+theorem reduce96_lane_spec (hv lv : BitVec 64) :
+    (L2.bin reduce_avx_96_64 hv lv).toNat % P = (hv.toNat % 4294967296 * 18446744073709551616 + lv.toNat) % P := by
+  have e : ∃ m, (m.toNat = hv.toNat % 4294967296 * 4294967295) ∧
+      L2.bin reduce_avx_96_64 hv lv = L2.bin add_avx_b_small lv m := by
+    first
+      | exact ⟨mul32 hv 4294967295#64, mul32_Pn_toNat hv, by
+          unfold L2.bin
+          simp only [reduce_avx_96_64, add_b_small_get, lane_get]⟩
+      | exact ⟨mul32 4294967295#64 hv, Pn_mul32_toNat hv, by
+          unfold L2.bin
+          simp only [reduce_avx_96_64, add_b_small_get, lane_get]⟩
+  obtain ⟨m, hm, e⟩ := e
+  have b2 : m.toNat ≤ 18446744069414584320 := by
+    rw [hm]
+    have := mul32_le (hv.toNat % 4294967296) 4294967295 (by omega) (by decide)
+    omega
+  rw [e, add_b_small_spec _ _ b2, hm]
+  apply mod_cert _ _ (hv.toNat % 4294967296) 0
+  unfold P
+  omega
 
 /-- reduce_avx_96_64 : uses the low 32 bits of c_h only -/
 theorem reduce96_spec (h l : V4) (i : Fin 4) :
     ((reduce_avx_96_64 h l).get i).toNat % P =
       ((h.get i).toNat % 4294967296 * 18446744073709551616 + (l.get i).toNat) % P := by
-  rw [reduce96_get]
-  generalize h.get i = hv
-  generalize l.get i = lv
-  have b2 : (mul32 hv 4294967295#64).toNat ≤ 18446744069414584320 := by
-    rw [mul32_toNat]
-    have := mul32_le (hv.toNat % 4294967296) ((4294967295#64 : BitVec 64).toNat % 4294967296) (by omega) (by decide)
-    omega
-  rw [add_b_small_spec _ _ b2, mul32_toNat]
-  have e : (4294967295#64 : BitVec 64).toNat % 4294967296 = 4294967295 := by decide
-  rw [e]
-  apply mod_cert _ _ (hv.toNat % 4294967296) 0
-  unfold P
-  omega
-
-theorem mult8_get (a b : V4) (i : Fin 4) :
-    (mult_avx_8 a b).get i =
-      L2.bin add_avx_b_small (mul72l (a.get i) (b.get i)) (mul32 (mul72h (a.get i) (b.get i)) 4294967295#64) := by
-  simp only [mult_avx_8, reduce96_get, (mult72_get a b i).1, (mult72_get a b i).2]
+  rw [reduce96_get, reduce96_lane_spec]
 
 /-- mult_avx_8 : exact whenever the multiplier lane is below 2^32 (documented requirement: below 2^8) -/
 theorem mult8_spec (a b : V4) (i : Fin 4) (hb : (b.get i).toNat < 4294967296) :
@@ -236,55 +228,20 @@ theorem mult8_spec (a b : V4) (i : Fin 4) (hb : (b.get i).toNat < 4294967296) :
 
 /-! #### square_avx_128 / square_avx -/
 
-theorem and_sqmask_toNat (x : BitVec 64) : (x &&& 8589934591#64).toNat = x.toNat % 8589934592 := by
-  rw [BitVec.toNat_and]
-  show x.toNat &&& (2^33 - 1) = _
-  rw [Nat.and_two_pow_sub_one_eq_mod]
-
 def sq128h (x : BitVec 64) : BitVec 64 := ((square_avx_128 (V4.splat x)).1).get 0
 def sq128l (x : BitVec 64) : BitVec 64 := ((square_avx_128 (V4.splat x)).2).get 0
 
 theorem square128_get (a : V4) (i : Fin 4) :
     (square_avx_128 a).1.get i = sq128h (a.get i) ∧ (square_avx_128 a).2.get i = sq128l (a.get i) := by
   unfold sq128h sq128l
-  simp only [square_avx_128, Avx2.movehdup_ps, Avx2.mul_epu32, Avx2.srli_epi64, Avx2.slli_epi64, Avx2.add_epi64,
-    Avx2.and_si256, V4.get_map2, V4.get_map, V4.get_splat, V4.get_set_same, g_sqmask, and_self]
-
-theorem sq128_lanes (x : BitVec 64) :
-    sq128h x = mul32 (hdup x) (hdup x) + (mul32 x (hdup x) + (mul32 x x >>> 33)) >>> 31 ∧
-    sq128l x = (mul32 x (hdup x) + (mul32 x x >>> 33)) <<< 33 + (mul32 x x &&& 8589934591#64) := by
-  unfold sq128h sq128l
-  simp only [square_avx_128, Avx2.movehdup_ps, Avx2.mul_epu32, Avx2.srli_epi64, Avx2.slli_epi64, Avx2.add_epi64,
-    Avx2.and_si256, V4.get_map2, V4.get_map, V4.get_splat, V4.get_set_same, g_sqmask, and_self]
-
-theorem sq128_core (hh lh ll : Nat) (h1 : hh ≤ 18446744065119617025) (h3 : lh ≤ 18446744065119617025)
-    (h4 : ll ≤ 18446744065119617025) :
-    (hh + (lh + ll / 8589934592) % 18446744073709551616 / 2147483648) % 18446744073709551616 * 18446744073709551616 +
-      ((lh + ll / 8589934592) % 18446744073709551616 * 8589934592 % 18446744073709551616 + ll % 8589934592) %
-        18446744073709551616 =
-    hh * 18446744073709551616 + (lh + lh) * 4294967296 + ll := by
-  omega
+  simp only [square_avx_128, lane_get]
 
 /-- square_avx_128 : the 128-bit square is exact for all operands (33/31-bit split) -/
 theorem sq128_spec (x : BitVec 64) :
     (sq128h x).toNat * 18446744073709551616 + (sq128l x).toNat = x.toNat * x.toNat := by
-  obtain ⟨eh, el⟩ := sq128_lanes x
-  rw [eh, el]
-  simp only [BitVec.toNat_add, ushr_toNat, shl_toNat, and_sqmask_toNat, mul32_toNat, hdup_mod, Nat.reducePow]
-  have hx := x.isLt
-  have b1 : x.toNat / 4294967296 < 4294967296 := by omega
-  have b2 : x.toNat % 4294967296 < 4294967296 := by omega
-  have e1 : x.toNat = x.toNat / 4294967296 * 4294967296 + x.toNat % 4294967296 := by omega
-  have key := split_mul x.toNat x.toNat (x.toNat / 4294967296) (x.toNat % 4294967296) (x.toNat / 4294967296)
-    (x.toNat % 4294967296) e1 e1
-  have h1 := mul32_le _ _ b1 b1
-  have h3 := mul32_le _ _ b2 b1
-  have h4 := mul32_le _ _ b2 b2
-  have core := sq128_core _ _ _ h1 h3 h4
-  have comm : x.toNat / 4294967296 * (x.toNat % 4294967296) = x.toNat % 4294967296 * (x.toNat / 4294967296) :=
-    Nat.mul_comm _ _
-  rw [comm] at key
-  exact core.trans key.symm
+  unfold sq128h sq128l
+  simp only [square_avx_128, lane_get, lane_nat]
+  products_omega x, x
 
 theorem square_get (a : V4) (i : Fin 4) :
     (square_avx a).get i = L2.bin reduce_avx_128_64 (sq128h (a.get i)) (sq128l (a.get i)) := by
